@@ -66,6 +66,11 @@ def world(n_chr):
     sh[3][0] -= 4
     for i in range(3):
         w["reads"].append(W.read_of("shm%d_g%s" % (i, "ABC"[i]), "chr1", sh))
+    # every read carries three BAM tags; the configurations with --bam_tags copy them into the read assignments in the order of the
+    # command line (the option is parsed once, at start-up)
+    for i, r in enumerate(w["reads"]):
+        r.setdefault("tags", {})
+        r["tags"].update({"CB": "c%d" % (i % 3), "UB": "u%d" % (i % 5), "XQ": "q%d" % (i % 2)})
     return w
 
 
@@ -83,7 +88,7 @@ def diff_trees(t0, t1):
     return diffs
 
 
-EXTRA = ["--read_group", "read_id:_", "--count_exons", "--check_canonical", "--sqanti_output"]
+EXTRA = ["--read_group", "read_id:_", "--count_exons", "--check_canonical", "--sqanti_output", "--bam_tags", "UB,CB,XQ"]
 # option configurations: (name, uses the annotation, data type, extra options)
 CONFIGS = [
     ("annotated", True, "nanopore", EXTRA),
@@ -93,7 +98,7 @@ CONFIGS = [
     ("split-locus", True, "nanopore", EXTRA),
     # the reads in two files of one experiment (grouped by file name automatically): every second 3-kb window of a chromosome is covered
     # by the second file only
-    ("two-files", True, "nanopore", ["--count_exons"]),
+    ("two-files", True, "nanopore", ["--count_exons", "--bam_tags", "XQ,CB"]),
 ]
 
 
